@@ -125,6 +125,22 @@ def write_evidence(prop, tier, seed, level, coverage, assumptions, wall,
     return out
 
 
+def _second_run_signatures(prop, ctx):
+    """Run the same exploration once more in a fresh interpreter and return
+    the set of violation signatures (None if that run failed)."""
+    import subprocess
+    import tempfile
+    with tempfile.TemporaryDirectory(dir=str(boot.scratch())) as td:
+        out = pathlib.Path(td) / "sigs.json"
+        cmd = [sys.executable, "-m", "vf.runner", prop, "--tier", ctx.tier,
+               "--seed", str(ctx.seed), "--dump-signatures", str(out)]
+        r = subprocess.run(cmd, cwd=str(VERIF), capture_output=True,
+                           text=True)
+        if r.returncode != 0 or not out.exists():
+            return None
+        return set(json.loads(out.read_text()))
+
+
 def main(argv=None):
     ap = argparse.ArgumentParser(prog="check")
     ap.add_argument("prop")
@@ -133,6 +149,9 @@ def main(argv=None):
     ap.add_argument("--replay", default=None)
     ap.add_argument("--seed", type=int,
                     default=int(os.environ.get("VERIF_SEED", "0") or 0))
+    # internal: run the exploration only and write the set of violation
+    # signatures to a file (used to confirm history-dependent violations)
+    ap.add_argument("--dump-signatures", default=None)
     args = ap.parse_args(argv)
     prop = args.prop.upper()
     t0 = time.time()
@@ -215,6 +234,10 @@ def main(argv=None):
     if ext_notes:
         coverage["extension_notes"] = ext_notes
     violations = report.get("violations", [])
+    if args.dump_signatures:
+        pathlib.Path(args.dump_signatures).write_text(json.dumps(
+            sorted({signature(v) for v in violations})))
+        return 0
     # group by signature, keep the first (shortest, thanks to BFS / simplest
     # first enumeration) of each
     groups = {}
@@ -232,15 +255,34 @@ def main(argv=None):
     # determinism: every reported signature must reproduce from its artefact
     rc = 0
     lines = []
+    second_run = None      # signatures of a second, independent full run
     try:
         for sig, vs in unmatched[:25]:
             v = vs[0]
+            note = None
             for attempt in range(2):
                 again = mod.replay(v["case"], ctx)
-                if not any(signature(a) == sig for a in again):
+                if any(signature(a) == sig for a in again):
+                    continue
+                # The case does not fail on its own.  Either the harness is
+                # not deterministic (an error of ours), or the violation
+                # needs state that dclab carried over from earlier cases of
+                # the same process (a memo, a registry).  Decide by running
+                # the whole exploration again in a fresh process: if the
+                # same signature shows up again it is a property of the code
+                # under test, not of chance.
+                if second_run is None:
+                    second_run = _second_run_signatures(prop, ctx)
+                if second_run is None or sig not in second_run:
                     raise HarnessError(
                         "nondeterminism: violation did not reproduce on "
-                        f"replay {attempt + 1}: {sig}\n{v['detail']}")
+                        f"replay {attempt + 1} nor in a second full run: "
+                        f"{sig}\n{v['detail']}")
+                note = ("fails in every full run, not when the case is "
+                        "replayed alone: it depends on state dclab keeps "
+                        "between the cases of one process; reproduce with "
+                        "the check command itself")
+                break
             h = hashlib.sha1(sig.encode()).hexdigest()[:12]
             rdir = VERIF / "replays" / prop
             rdir.mkdir(parents=True, exist_ok=True)
@@ -249,9 +291,12 @@ def main(argv=None):
                 {"property": prop, "signature": sig, "where": v["where"],
                  "symptom": v["symptom"], "tags": v["tags"],
                  "detail": v["detail"], "count": len(vs), "seed": ctx.seed,
-                 "tier": ctx.tier, "case": v["case"]}, indent=1) + "\n")
+                 "tier": ctx.tier, "case": v["case"],
+                 "note": note}, indent=1) + "\n")
             lines.append(f"VIOLATION property={prop} replay={rpath}")
             lines.append(f"  {sig}  (x{len(vs)})\n  {v['detail'][:600]}")
+            if note:
+                lines.append(f"  note: {note}")
             rc = 1
         if len(unmatched) > 25:
             lines.append(f"  ... {len(unmatched) - 25} more signatures")
